@@ -83,7 +83,7 @@ fn text_bytes(i: u16) -> Vec<u8> {
 }
 
 fn case_strategy() -> BoxedStrategy<RenderCase> {
-    let slot = (prop_oneof![3 => Just(0u8), 2 => Just(1u8), 2 => Just(2u8)], any::<u16>(), prop_oneof![5 => Just(0u8), 1 => Just(1u8), 1 => Just(2u8), 1 => Just(3u8)])
+    let slot = (prop_oneof![3 => Just(0u8), 2 => Just(1u8), 2 => Just(2u8), 1 => Just(3u8)], any::<u16>(), prop_oneof![5 => Just(0u8), 1 => Just(1u8), 1 => Just(2u8), 1 => Just(3u8)])
         .prop_map(|(kind, text, modifier)| Slot { kind, text, modifier });
     let outcome = (
         prop_oneof![6 => Just(0u8), 1 => Just(1u8), 1 => Just(2u8), 1 => Just(3u8), 1 => Just(4u8)],
@@ -128,7 +128,9 @@ fn build(oi: usize, spec: &OutcomeSpec, with_location: bool) -> Option<Built> {
     let mut exp_lines: Vec<String> = vec![];
     let mut out: Vec<u8> = vec![];
     let mut all_tokens = vec![];
-    let n_out = spec.slots.iter().filter(|s| s.kind != 1).count();
+    // kind 3: a multiline expectation that matches a run of 2..15 output lines
+    let run_len = |s: &Slot| 2 + (s.text % 14) as usize;
+    let n_out: usize = spec.slots.iter().map(|s| match s.kind { 1 => 0, 3 => run_len(s), _ => 1 }).sum();
     let mut out_seen = 0;
     for (si, s) in spec.slots.iter().enumerate() {
         let text = text_bytes(s.text);
@@ -148,6 +150,19 @@ fn build(oi: usize, spec: &OutcomeSpec, with_location: bool) -> Option<Built> {
             if s.kind == 1 {
                 all_tokens.push(etok.clone());
             }
+        }
+        if s.kind == 3 {
+            let rtok = format!("Tr{oi}x{si}E");
+            exp_lines.push(format!("{rtok} * (glob+)"));
+            for k in 0..run_len(s) {
+                out_seen += 1;
+                out.extend_from_slice(format!("{rtok} {k}").as_bytes());
+                if out_seen < n_out || spec.final_newline {
+                    out.push(b'\n');
+                }
+            }
+            all_tokens.push(rtok);
+            continue;
         }
         if s.kind == 0 || s.kind == 2 {
             out_seen += 1;
